@@ -621,7 +621,7 @@ def stream_run(res, E, kind, N):
         mdl = E.model(p.cond)
         nn = mdl.eval(n_items, True).as_long()
         acts = [mdl.eval(a, True).as_long() for a in act[:nn]]
-        fixed = not E.feasible(p.cond, z3.Or([n_items != nn] + [a != v for a, v in zip(act, acts)]))
+        fixed = not E.feasible(p.cond, z3.Or([n_items != nn] + ([a != v for a, v in zip(act, acts)] if kind == "delta" else [])))
         lists = kinds[1:-1].split("S") if kind == "delta" else [kinds[1:-1]]
         items = [sg for sg in seq if sg.kind == "payload"]
         k = 0
